@@ -84,9 +84,15 @@ CHECKS = {
    technique="the lexical space of every FIX 4.4 datatype as a three-valued recogniser over strings in TLA+ (spec/Lexical.tla, self-tested by TLC in spec/LexicalMC.tla); TLC (spec/LexicalEval.tla) judges the outcome of the real SchemaField.validate_value on all strings up to length 3-4 over type-specific alphabets, boundary products of the fixed-layout types and all enumerators + near misses of both dictionaries",
    text="Per datatype of both dictionaries: exhaustive short strings over an alphabet of digits, sign, dot, underscore, space, exponent letter, non-ASCII digit (numeric types) or letters, space, '=', SOH (text types); year/month/day/hour/minute/second/fraction boundary products with layout defects for timestamps, dates, times, MonthYear; every enumerated field with its enumerators and case/prefix/suffix/neighbour near misses. Acceptance iff member, rejection only by FIXMessageError.",
    design_ref="5/C19", note="Unspecified decisions (nothing asserted) are listed in the header of spec/Lexical.tla. " + COMMON_NOTE),
+ "C15": dict(engine="SchemaValid",
+   technique="validity of a message tree w.r.t. a FIX XML dictionary as a three-valued TLA+ operator (spec/SchemaValid.tla + spec/Lexical.tla) over a dictionary constant produced by an independent XML translator (harness/fixdict.py); TLC (spec/SchemaValidEval.tla) computes the verdict of canonical instances and every single-fault mutant and compares with the real FIXSchema.validate built from the XML and from permutations of its <components>",
+   text="Per message type of tests/FIX44.xml and tests/TT-FIX44.xml: required-only, partly and fully populated instances (groups with 1-2 items, nested to full depth) and mutants at every position and nesting depth: drop each required field/group, unknown tag, tag of another message, out-of-type / out-of-enum value, field as group and group as field, swapped group members, dropped delimiter, foreign member in an item; acceptance iff valid, rejection only by FIXMessageError, same outcome for every component order.",
+   design_ref="5/C15", note="Quick tier: the session messages + a seeded sample of message types incl. some with required groups; thorough: all 93 + 40. Required member of an otherwise absent optional component: unspecified. " + COMMON_NOTE),
 }
 
 ENGINES = [
+ dict(name="SchemaValid", path="spec/SchemaValid.tla spec/SchemaValidEval.tla spec/Lexical.tla harness/fixdict.py harness/props/c15.py",
+      serves_properties=["C15"], kind_free_text="TLA+ validity oracle over an independently translated dictionary, evaluated by TLC against the real validator"),
  dict(name="Lexical", path="spec/Lexical.tla spec/LexicalMC.tla spec/LexicalEval.tla harness/props/c19.py",
       serves_properties=["C19"], kind_free_text="TLA+ recognisers of the FIX datatype lexical spaces evaluated by TLC against the real validator"),
  dict(name="Container", path="spec/Container.tla spec/ContainerMC.tla spec/ContainerEval.tla harness/props/c18.py",
